@@ -493,6 +493,56 @@ def responses(chk, repo):
            "specifier")
 
 
+def object_entries(chk, repo):
+    """ObjectEntry.write / read by abstract execution: a value of a typed
+    entry goes to sdo_write as exactly its little-endian struct encoding -
+    whatever the entry's bit length says - and what sdo_read returns is
+    decoded with the same format"""
+    import struct
+    oe = repo.cls("ebpfcat.ethercat.ObjectEntry")
+    wr, rd = oe.methods.get("write"), oe.methods.get("read")
+    if wr is None or rd is None:
+        return
+    chk.analysed(oe.qualname + ".write", oe.qualname + ".read")
+    bad = []
+    for fmt, bits, val in (("B", 1, 1), ("B", 1, 0), ("B", 7, 100),
+                           ("B", 8, 200), ("h", 16, -2), ("H", 16, 65000),
+                           ("i", 32, -70000), ("I", 24, 0x123456),
+                           ("I", 32, 0xdeadbeef), ("q", 64, -5),
+                           ("f", 32, 1.5)):
+        sent = []
+        raw = struct.pack("<" + fmt, val)
+
+        def sdo_write(data, index, sub=None, _s=sent):
+            _s.append((bytes(data), index, sub))
+
+        def sdo_read(index, sub=None, _r=raw):
+            return _r
+        me = Obj(oe, {"terminal": Obj(None, {
+            "sdo_write": ("hook", sdo_write),
+            "sdo_read": ("hook", sdo_read)}),
+            "index": 0x8010, "valueInfo": 3, "bitLength": bits,
+            "dataType": Obj(None, {"fmt": fmt, "name": "T"})})
+        try:
+            Evaluator(repo, wr._module, oe).call_function(wr, [me, val],
+                                                          cls=oe)
+            got = Evaluator(repo, rd._module, oe).call_function(rd, [me],
+                                                                cls=oe)
+        except (Unknown, Raised) as e:
+            raise AnalysisError(f"{oe.qualname}.write/read: cannot be "
+                                f"evaluated for {fmt!r}: {e}")
+        if sent != [(raw, 0x8010, 3)]:
+            bad.append(f"{fmt!r} ({bits} bit) = {val!r}: sdo_write gets "
+                       f"{sent}, the value is {raw.hex()}")
+        elif got != val:
+            bad.append(f"{fmt!r} ({bits} bit): reads {got!r} for "
+                       f"{raw.hex()}")
+    chk.ob("R16.8", oe.qualname, "typed entries are written and read as "
+           "their little-endian struct encoding (11 types / bit lengths by "
+           "abstract execution)", not bad, wr, "; ".join(bad[:2]) or
+           "value -> pack('<'+fmt) -> sdo_write; sdo_read -> unpack")
+
+
 def drain_before_send(chk, repo):
     """mbx_send: when the status read at its start shows a mail pending
     (bit 3), that mail is fetched with mbx_recv() before the new request is
@@ -547,6 +597,7 @@ def drain_before_send(chk, repo):
 
 def directions(chk, repo):
     drain_before_send(chk, repo)
+    object_entries(chk, repo)
     for meth, own, other, status in (("mbx_send", "out", "in", 0x805),
                                      ("mbx_recv", "in", "out", 0x80D)):
         sym = T + "." + meth
